@@ -1,5 +1,106 @@
 import Driver.Common
-open Driver
+import GIV.Model.Proxy
+import GIV.Model.Txtar
+open GIV GIV.Proxy Driver
 
-/-- stub: replaced by the group's model driver. -/
-def main : IO Unit := run (fun _ => "bad-op")
+/-!
+Line protocol of `gim_proxy` (hex = lower-case hex, `-` = empty string, `_` = empty list):
+
+* `str <hex>`            → every one-argument function of the model on that string
+* `pair <hex> <hex>`     → `module.Check(a, b)` and `semver.Compare(a, b)`
+* `scn <store> <shorts> <urls>` → `ML=<modlist|err> R=<response>;...`: `readModList` and a sequential run
+  of the requests against one server (zip cache: first caller wins)
+    store  = entry,entry,...   entry = `F:<name>:<data>` | `D:<name>:<file>+<file>...` (`D:<name>:_` = empty directory)
+    file   = `<comp>/<comp>/...=<data>`
+    shorts = `<info data>=<Short>,...`   (encoding/json is outside the model: the harness supplies the table)
+    urls   = `<url path>,<url path>,...`
+-/
+
+def showOpt : Option Bytes → String
+  | none => "err"
+  | some b => toHex b
+
+def showBool (b : Bool) : String := if b then "1" else "0"
+
+def showInt (i : Int) : String := if i < 0 then "-1" else if i > 0 then "1" else "0"
+
+def strLine (s : Bytes) : String :=
+  "EP=" ++ showOpt (escapePath s) ++ " UP=" ++ showOpt (unescapePath s) ++
+  " EV=" ++ showOpt (escapeVersion s) ++ " UV=" ++ showOpt (unescapeVersion s) ++
+  " CP=" ++ showBool (checkPath s) ++
+  " SPV=" ++ (let r := splitPathVersion s; toHex r.1 ++ "," ++ toHex r.2.1 ++ "," ++ showBool r.2.2) ++
+  " SV=" ++ showBool (semverIsValid s) ++ " MJ=" ++ toHex (semverMajor s) ++ " BD=" ++ toHex (semverBuild s) ++
+  " PS=" ++ showBool (isPseudo s) ++ " AH=" ++ showBool (allHex s) ++
+  " DB=" ++ (match decodeBase s with
+             | none => "skip"
+             | some none => "err"
+             | some (some m) => toHex m.path ++ "@" ++ toHex m.version)
+
+def parseFileEnc (s : String) : Option (List Bytes × Bytes) :=
+  match s.splitOn "=" with
+  | [p, d] => do
+    let comps ← (p.splitOn "/").mapM fromHex
+    let d ← fromHex d
+    pure (comps, d)
+  | _ => none
+
+def parseEntry (s : String) : Option (Bytes × Node) :=
+  match s.splitOn ":" with
+  | ["F", n, d] => do
+    let n ← fromHex n
+    let d ← fromHex d
+    pure (n, .file d)
+  | ["D", n, fs] => do
+    let n ← fromHex n
+    let files ← if fs == "_" then pure [] else (fs.splitOn "+").mapM parseFileEnc
+    pure (n, .dir files)
+  | _ => none
+
+def parseList {α} (f : String → Option α) (sep : String) (s : String) : Option (List α) :=
+  if s == "_" then some [] else (s.splitOn sep).mapM f
+
+def parseShort (s : String) : Option (Bytes × Bytes) :=
+  match s.splitOn "=" with
+  | [a, b] => do
+    let a ← fromHex a
+    let b ← fromHex b
+    pure (a, b)
+  | _ => none
+
+def showResponse : Response → String
+  | .notFound => "404"
+  | .err500 => "500"
+  | .bytes b => "b:" ++ toHex b
+  | .zip ms => "z:" ++ (if ms.isEmpty then "_" else "+".intercalate (ms.map fun f => toHex f.name ++ "=" ++ toHex f.data))
+
+def mkExt (shorts : List (Bytes × Bytes)) : Ext where
+  parseTxtar d := (GIV.Txtar.refParse d).files.map fun f => ⟨f.name, f.data⟩
+  shortOf d := match shorts.lookup d with
+    | some s => s
+    | none => []
+
+def scnLine (st : Store) (shorts : List (Bytes × Bytes)) (urls : List Bytes) : String :=
+  match readModList st with
+  | none => "ML=err"
+  | some ml =>
+    let x := mkExt shorts
+    "ML=" ++ (if ml.isEmpty then "_" else ",".intercalate (ml.map fun m => toHex m.path ++ "@" ++ toHex m.version)) ++
+    " R=" ++ ";".intercalate ((runSeq x ml st [] urls).map showResponse)
+
+def step (line : String) : String :=
+  match line.splitOn " " with
+  | ["str", h] =>
+    match fromHex h with
+    | some s => strLine s
+    | none => "bad-op"
+  | ["pair", a, b] =>
+    match fromHex a, fromHex b with
+    | some a, some b => "CK=" ++ showBool (check a b) ++ " CMP=" ++ showInt (semverCompare a b)
+    | _, _ => "bad-op"
+  | ["scn", st, sh, us] =>
+    match parseList parseEntry "," st, parseList parseShort "," sh, parseList fromHex "," us with
+    | some st, some sh, some us => scnLine st sh us
+    | _, _, _ => "bad-op"
+  | _ => "bad-op"
+
+def main : IO Unit := run step
